@@ -355,6 +355,23 @@ MoveSemantics ==
                (~IsPrefix(src, q) /\ ~IsPrefix(fin, q)) => (Ex(fs, q) /\ Ex(fs', q) /\ fs'[q] = fs[q])
          /\ ~(IsD(fs, src) /\ IsPrefix(src, fin))]_vars
 
+\* Mv is refused ONLY for one of the documented reasons (the converse of MoveSemantics, again stated without
+\* the Mv action): nothing to move, no destination directory, the name is taken inside the directory moved
+\* into, or the source is a directory and the entry would land in the source itself or below it.  "Below" is
+\* a statement about the HIERARCHY: the source is one of the directories on the way from the root to the
+\* landing directory, compared name by name -- a sibling whose name (or printed path) merely starts with the
+\* same characters (/a vs /ab, /p/a vs /p/a2/x) is NOT below it, and such a move must succeed.
+MoveRefusal ==
+    [][(last'.op = "Mv" /\ last'.res \notin OkRes) =>
+         LET src  == last'.a.p   dst == last'.a.q   ts == last'.a.ts
+             into == IF ts THEN dst ELSE Parent(dst)                     \* the directory the destination names
+             t    == Append(into, IF ts THEN Base(src) ELSE Base(dst))   \* the entry the destination names
+             land == IF IsD(fs, t) THEN t ELSE into                      \* the directory the entry would end up in
+         IN \/ ~Ex(fs, src)
+            \/ ~IsD(fs, into)
+            \/ IsD(fs, t) /\ Ex(fs, Append(t, Base(src)))
+            \/ IsD(fs, src) /\ \E i \in 0..Len(land) : Pre(land, i) = src]_vars
+
 \* every other call touches only what it names
 Frame ==
     [][LET op == last'.op  p == last'.a.p IN
